@@ -36,6 +36,14 @@ def window_cmp(fn, atom, subst):
     return None
 
 
+def window_is(fn, atom, pol, subst):
+    """The window comparison established when `atom` has truth value `pol`, normalised to `D op 0`."""
+    op = window_cmp(fn, atom, subst)
+    if op is None:
+        return None
+    return op if pol else q.NEG[op]
+
+
 def eval_bool(fn, n, env, subst):
     """Evaluate a boolean expression tree under env: callback atom -> bool|None."""
     n = q.strip_casts(n)
@@ -162,7 +170,7 @@ def check(run):
         if tgt is None or 'would_block' not in q.render(ws, rhs):
             continue
         g = q.guards_at(ws, n)
-        ok = any((window_cmp(ws, a, csub) in ('>',) and p) or (q.render(ws, a) == 'm_connect_handler' and p) for a, p in g)
+        ok = any(window_is(ws, a, p, csub) == '>' or (q.render(ws, a) == 'm_connect_handler' and p) for a, p in g)
         run.check(ok, 'R10', 'would-block-means-blocked', '%s: ec = would_block @%s' % (ws.norm, 'window' if any(window_cmp(ws, a, csub) for a, p in g) else 'connect'), ws.loc(n),
                   'would_block is reported on a path where neither the window is full nor the connect is pending', 'reported only when in_flight+mss > cwnd or the connect is pending')
 
